@@ -777,7 +777,7 @@ pub fn matrix_behaviour(r: &mut Rng, t: &mut Trace) {
 // ---------------------------------------------------------------------------------------------
 // registry driver (C16, C17, C19)
 // ---------------------------------------------------------------------------------------------
-pub fn registry_behaviour(r: &mut Rng, t: &mut Trace, max_pairs: usize) {
+pub fn registry_behaviour(r: &mut Rng, t: &mut Trace, max_pairs: usize, index: usize) {
     // denoms with shared prefixes and every split of common concatenations
     let pool = ["aaa", "aaab", "aaaa", "aab", "ab", "abc", "aba", "abab", "b", "ba", "bab", "aaaaa", "a", "aa", "c", "ca", "cab"];
     let mut denoms: Vec<&str> = pool.to_vec();
@@ -800,7 +800,33 @@ pub fn registry_behaviour(r: &mut Rng, t: &mut Trace, max_pairs: usize) {
         assets.push(tok(tk));
     }
     assets.push(tok("nosuchcontract"));
-    let target = r.range(1, max_pairs as u64) as usize;
+    // size classes by behaviour index: beyond the maximum page (30), just beyond the default page (10), anything
+    let target = match index % 4 {
+        0 => r.range(33, max_pairs.max(34) as u64) as usize,
+        1 => r.range(11, 14) as usize,
+        _ => r.range(1, max_pairs as u64) as usize,
+    };
+    // asset sets whose sorted concatenation collides (the registry key has no delimiter)
+    let mut groups: std::collections::BTreeMap<String, Vec<(String, String)>> = std::collections::BTreeMap::new();
+    for (i, a) in denoms.iter().enumerate() {
+        for b in denoms.iter().skip(i + 1) {
+            let (x, y) = if a.as_bytes() <= b.as_bytes() { (a, b) } else { (b, a) };
+            groups.entry(format!("{}{}", x, y)).or_default().push((x.to_string(), y.to_string()));
+        }
+    }
+    let colliding: Vec<Vec<(String, String)>> = groups.into_values().filter(|g| g.len() >= 2).collect();
+    for g in colliding.iter().take(3) {
+        for (x, y) in g.iter() {
+            let (ix, iy) = if r.chance(1, 2) { (nat(x), nat(y)) } else { (nat(y), nat(x)) };
+            t.run(&mut w, json!({"op": "fac_create_pair", "caller": "owner", "infos": [ix, iy], "commission": nul(),
+                                  "whitelist": ["alice"], "min0": st(0), "min1": st(0)}));
+            for (u, v) in g.iter() {
+                t.run(&mut w, json!({"op": "q_fac_pair", "infos": [nat(u), nat(v)]}));
+                t.run(&mut w, json!({"op": "q_fac_pair", "infos": [nat(v), nat(u)]}));
+            }
+            t.run(&mut w, json!({"op": "q_fac_walk", "limit": json!(2)}));
+        }
+    }
     let mut created = 0usize;
     let mut attempts = 0;
     while created < target && attempts < target * 4 {
@@ -939,7 +965,7 @@ pub fn run(driver: &str, seed: u64, behaviours: usize, steps: usize, out: &mut d
         match driver {
             "random" => random_behaviour(&mut r, &mut t, steps),
             "matrix" => matrix_behaviour(&mut r, &mut t),
-            "registry" => registry_behaviour(&mut r, &mut t, steps.max(1)),
+            "registry" => registry_behaviour(&mut r, &mut t, steps.max(1), b),
             "withdraw" => withdraw_behaviour(&mut r, &mut t),
             other => panic!("unknown driver {}", other),
         }
